@@ -79,7 +79,11 @@ def run_generator(defn, stream, opts, cap):
 
 def impl(case):
     def run():
-        d = docs.definition_py(case["doc"])
+        if case.get("via") == "xml":      # the same definition obtained through the XML loader (the document is written by the harness)
+            import xmlgen
+            d = xmlgen.load(xmlgen.document_xml(case["doc"], ("prefix", "xtce")), ("prefix", "xtce"))
+        else:
+            d = docs.definition_py(case["doc"])
         stream = b"".join(bytes.fromhex(p) for p in case["packets"])
         return run_generator(d, stream, case["opts"], len(case["packets"]))
     out = core.guarded(run, timeout_s=30)
